@@ -51,6 +51,9 @@ func (s *Server) referrerGet(repoStr, arg string) http.HandlerFunc {
 		}
 		repo, err := s.store.RepoGet(r.Context(), repoStr)
 		if err != nil {
+			if filterAT != "" {
+				w.Header().Add(referrerFilterATHeaderKey, referrerFilterATHeaderValue)
+			}
 			w.Header().Add("content-type", types.MediaTypeOCI1ManifestList)
 			w.WriteHeader(http.StatusOK)
 			_ = json.NewEncoder(w).Encode(i)
@@ -91,6 +94,9 @@ func (s *Server) referrerGet(repoStr, arg string) http.HandlerFunc {
 		}
 		index, err := repo.IndexGet()
 		if err != nil {
+			if filterAT != "" {
+				w.Header().Add(referrerFilterATHeaderKey, referrerFilterATHeaderValue)
+			}
 			w.Header().Add("content-type", types.MediaTypeOCI1ManifestList)
 			w.WriteHeader(http.StatusOK)
 			_ = json.NewEncoder(w).Encode(i)
@@ -105,6 +111,9 @@ func (s *Server) referrerGet(repoStr, arg string) http.HandlerFunc {
 		d, err := index.GetByAnnotation(types.AnnotReferrerSubject, arg)
 		if err != nil {
 			// not found, empty response
+			if filterAT != "" {
+				w.Header().Add(referrerFilterATHeaderKey, referrerFilterATHeaderValue)
+			}
 			w.WriteHeader(http.StatusOK)
 			_ = json.NewEncoder(w).Encode(i)
 			return
